@@ -13,9 +13,9 @@ LEVEL = "fault_enumeration"
 
 ASSUME = [
     "deterministic part: the guarded hook (VERIF_POINT in src/main.cpp, -DINOVESA_VERIF) raises a real SIGINT through the real handler when its counter reaches the requested value; the point log proves where each injection fired; every point of the chosen runs is enumerated once, plus pairs/triples for repeated signals",
-    "asynchronous part: real kill(SIGINT) at random delays into the release binary with the hook dormant (environment unset)",
+    "asynchronous part: real kill(SIGINT) at random delays, counted from the program's first line of output (the handler is installed before anything is printed: 'after start-up'), into the release binary with the hook dormant (environment unset)",
     "expected step reached: set-up points -> 0; loop points before the step counter is incremented -> step+1; after the increment / final block -> the step shown by the hook",
-    "every record of the interrupted file (including the final one) must be bit-identical to the record of the same step of an uninterrupted reference run (reference with outstep=1 for the enumeration; a run of exactly that length for the asynchronous part)",
+    "every record before the final one must be bit-identical to the same-step record of the uninterrupted run with the same options; the final record to the record of that step in a reference run that records every step (enumeration) / in a run of exactly that length (asynchronous part)",
     "log must end with 'Aborted.' (or 'Finished.' when the signal arrived after the last step); exit status 0; not killed by a signal",
 ]
 
@@ -100,14 +100,58 @@ def judge(ctx, h, P, run, ref, ref_steps, res, want_step, w, key_sfx, finished_o
         ctx.violation(key + key_sfx, what, dict(w, **det))
     n = 0
     if ref is not None:
-        n, bad = h5oracle.compare_common_records(ref, h, steps, particles=(run.get("FPTrack", 3) != 3 and "tracking" in run))
+        # every record but the final one: identical to the uninterrupted run with the same options;
+        # the final record (step s): identical to the reference run's record of step s (every step recorded there)
+        import numpy as _np
+        use_particles = (run.get("FPTrack", 3) != 3 and "tracking" in run)
+        if ref_steps is not None:
+            n1, bad1 = h5oracle.compare_common_records(ref_steps, _truncate(h, steps, s, keep_final=False), steps, particles=use_particles, allow_empty=True)
+        else:
+            n1, bad1 = 0, []
+        n2, bad2 = h5oracle.compare_common_records(ref, _truncate(h, steps, s, keep_final=True), steps, particles=use_particles, allow_empty=True)
+        n = n1 + n2
         have = set(h5oracle.step_index(h, steps)) - set(h5oracle.step_index(ref, steps))
         if have:
             ctx.violation("C14:unknown_record" + key_sfx, "interrupted file has a record for a step the reference does not have", dict(w, steps=sorted(have)[:5]))
-        for b in bad:
+        for b in bad1 + bad2:
             ctx.violation("C14:record_differs:%s%s" % (b["dataset"], key_sfx), "record of the interrupted run differs from the uninterrupted run's record of the same step",
-                          dict(w, dataset=b["dataset"], step=b["step"]))
+                          dict(w, dataset=b["dataset"], step=b["step"], which=("earlier record vs same-options run" if b in bad1 else "final record vs every-step reference")))
     return n
+
+
+class _View:
+    """a results file restricted to the records before the final step (keep_final=False) or to the final record only"""
+
+    def __init__(self, h, steps, s, keep_final):
+        import numpy as np
+        self.d = {}
+        t = np.rint(h["/Info/AxisValues_t"].astype(float) * steps).astype(int)
+        tp = np.rint(h["/PhaseSpace/axis0"].astype(float) * steps).astype(int)
+        # final record = last index; earlier records = all but the last index
+        nt, ntp = len(t), len(tp)
+        for k, v in h.d.items():
+            if k in ("/Info/AxisValues_t",) + tuple(h5oracle.PHYSICS_DATASETS) + ("/Particles/data",):
+                if v.shape[0] == nt and nt > 0:
+                    self.d[k] = v[-1:] if keep_final else v[:-1]
+                else:
+                    self.d[k] = v[:0]
+            elif k in ("/PhaseSpace/axis0", "/PhaseSpace/data"):
+                if v.shape[0] == ntp and ntp > 0:
+                    self.d[k] = v[-1:] if keep_final else v[:-1]
+                else:
+                    self.d[k] = v[:0]
+            else:
+                self.d[k] = v
+
+    def __contains__(self, k):
+        return k in self.d
+
+    def __getitem__(self, k):
+        return self.d[k]
+
+
+def _truncate(h, steps, s, keep_final):
+    return _View(h, steps, s, keep_final)
 
 
 def enumerate_scenario(ctx, idx, o, sdir):
@@ -127,11 +171,13 @@ def enumerate_scenario(ctx, idx, o, sdir):
     go("warm", dict(outstep=0, rotations=0.01), {})
     # reference with every step recorded, and the dry pass that lists the points
     rwd, rres = go("ref", dict(outstep=1, SavePhaseSpace=1), {})
+    awd, ares = go("refsame", {}, {})       # uninterrupted run with the very same options (records before the final one)
     dwd, dres = go("dry", {}, {"INOVESA_VERIF_POINTLOG": "points.log"})
     if rres["rc"] != 0 or dres["rc"] != 0 or not os.path.exists(os.path.join(dwd, "points.log")):
         ctx.harness_errors.append("scenario %d: reference or dry pass failed: %s" % (idx, (rres["err"] + dres["err"])[-200:]))
         return
     ref = prog.H5(os.path.join(rwd, "out.h5"))
+    refsame = prog.H5(os.path.join(awd, "out.h5")) if ares["rc"] == 0 else None
     pts = read_points(os.path.join(dwd, "points.log"))
     ctx.ev("interrupt_points_listed", len(pts))
     tags = sorted(set(p[1] for p in pts))
@@ -141,8 +187,11 @@ def enumerate_scenario(ctx, idx, o, sdir):
     nmulti = 60 if ctx.tier == "thorough" else 24
     for _ in range(nmulti):
         ks = sorted(set(r.randint(1, len(pts)) for _ in range(r.choice([2, 2, 3]))))
+        if len(ks) < 2:
+            continue                        # (would collide with the single-point run of that point)
         c, tag, st, _ = pts[ks[0] - 1]
         jobs.append((tuple(ks), tag, st))
+    jobs = list(dict((j[0], j) for j in jobs).values())
 
     def one(job):
         ks, tag, st = job
@@ -181,7 +230,7 @@ def enumerate_scenario(ctx, idx, o, sdir):
         except (IOError, OSError) as ex:
             ctx.violation("C14:unreadable" + sfx, "results file of the interrupted run cannot be read", dict(w, error=str(ex)))
             continue
-        n = judge(ctx, h, P, run, ref, None, res, expected_step(tag, st), w, sfx, finished_ok=tag.startswith(("final", "loopend")))
+        n = judge(ctx, h, P, run, ref, refsame, res, expected_step(tag, st), w, sfx, finished_ok=tag.startswith(("final", "loopend")))
         ctx.ev("records_compared_bitwise", n)
         if not os.environ.get("VERIF_KEEP"):
             shutil.rmtree(outp["wd"], ignore_errors=True)
@@ -216,6 +265,7 @@ def async_part(ctx, sdir):
         delays = sorted(r.uniform(0, 1.3 * dur) for _ in range(nsig))
         # with many processes in parallel the run is slower than measured alone; delays scale with load
         p = subprocess.Popen(argv(dict(base, output="out.h5")), cwd=wd, env=env, stdout=subprocess.PIPE, stderr=subprocess.PIPE)
+        first = p.stdout.readline()          # "Started Inovesa ...": the handler is installed before anything is printed ("after start-up")
         t1 = time.time()
         sent = 0
         for d in delays:
@@ -227,7 +277,7 @@ def async_part(ctx, sdir):
             hang = False
         except subprocess.TimeoutExpired:
             p.kill(); so, se = p.communicate(); hang = True
-        res = dict(rc=p.returncode, out=so.decode(errors="replace"), err=se.decode(errors="replace"), hang=hang, argv=argv(dict(base, output="out.h5")))
+        res = dict(rc=p.returncode, out=(first + so).decode(errors="replace"), err=se.decode(errors="replace"), hang=hang, argv=argv(dict(base, output="out.h5")))
         o = dict(i=i, res=res, wd=wd, sent=sent, delays=delays)
         if hang or p.returncode != 0 or sent == 0:
             return o
@@ -266,7 +316,7 @@ def async_part(ctx, sdir):
         s = o["s"]
         if s >= P["laststep"]:
             ctx.ev("async_signal_after_last_step")
-        n = judge(ctx, o["h"], P, run, o.get("ref"), None, res, None, dict(w, final_step=s), ":async", finished_ok=(s >= P["laststep"]))
+        n = judge(ctx, o["h"], P, run, o.get("ref"), o.get("ref"), res, None, dict(w, final_step=s), ":async", finished_ok=(s >= P["laststep"]))
         ctx.ev("records_compared_bitwise", n)
         ctx.ev("async_runs_judged")
         if s == 0:
@@ -286,5 +336,5 @@ def run(ctx):
     tags = ctx.extra.pop("point_tags_seen", set())
     ctx.extra["point_tags_seen"] = sorted(tags)
     ctx.extra["explanation"] = "every interrupt point of the chosen runs was injected once (complete for those runs); the set of runs is a sample"
-    ctx.min_events = {"injections_confirmed": 300, "injected.setup": 20, "injected.loop": 100, "injected.out": 50,
+    ctx.min_events = {"injections_confirmed": 300, "injected.setup": 20, "injected.loop": 100, "injected.out": 20,
                       "injected.final": 5, "injected.loopend": 5, "records_compared_bitwise": 3000, "async_runs_judged": 10}
